@@ -13,6 +13,7 @@ get <mod>                          => [rule,…] sorted
 getres <mod> <res>                 => [rule,…] in order      (flow|iso|hot|cb)
 ctrlids <mod> <res>                => identity classes of the controller objects in force, first-appearance order (flow|hot|cb)
 probe flow|iso <res> <batch> | probe cb <res> | probe sys    => pass|block|?
+probeseq flow <res> <batch>*       => one letter per request at one instant: p|b|w (w = had to sleep, sequence stops) or ?
 ```
 -/
 namespace Sentinel.Drv.C13
@@ -278,6 +279,10 @@ def step (spec : Bool) (s : St) (ts : List String) (_ : String) : St × Option S
   | ["probe", "flow", res, b] =>
     match b.toNat? with
     | some b => (s, some (match flowProbe (s.flow.enfOf spec (str res)) b with | some x => pb x | none => "?"))
+    | none => (s, some "bad-op")
+  | "probeseq" :: "flow" :: res :: bs =>
+    match bs.mapM String.toNat? with
+    | some bs => (s, some (match flowSeq (s.flow.enfOf spec (str res)) bs with | some x => x | none => "?"))
     | none => (s, some "bad-op")
   | ["probe", "iso", res, b] =>
     match b.toNat? with
